@@ -26,7 +26,9 @@ TEXTS = {
     "C01": T("seeded histories over every mutation route (attribute, dotted path, constructor, map/config assigned to a "
              "sub-configuration, tree/document loads in 5 formats, in-place typed list/dict mutators, resets, dynamic fields) with "
              "valid/boundary/invalid/wrongly-typed values and injected validator faults; after every step every readable value "
-             "is checked against the reference model (holds), accepted assignments against norm() and a snapshot frame condition",
+             "is checked against the reference model (holds), accepted assignments against norm() and a snapshot frame condition; "
+             "a share of the runs interleaves schema growth (fields and sub-schemas declared while configurations of different "
+             "age are live, undeclared keys later declared over) with assignments on those configurations",
              "Exploration of operation histories on generated schemas against the real classes on the simulated platform (SimFS "
              "for filename fields, SimDNS for resolving hostnames). The property quantifies over unbounded histories and inputs, "
              "so seeded search with a step-wise invariant is the right level; a clean batch is evidence, not proof.",
@@ -49,7 +51,8 @@ TEXTS = {
              "of the listed kinds in seeded histories: rejected assignments by all routes incl. injected validator faults, rejected "
              "single-element list/dict insertions, torn/garbage/undecodable/wrong-root documents in every format (parse failure "
              "decided by the underlying parser), unreadable files, and includes that are missing, directories, unreadable, "
-             "garbage, of another format, torn or failing with EIO",
+             "garbage, of another format, torn or failing with EIO; a share of the runs has configurations older than parts of "
+             "their (growing) schema and rejected assignments through levels they do not have yet",
              "Exploration over reachable states x failing operations x faults (torn files, open errors, include-file states, "
              "callback faults). Faults carry the property, so the fault-injecting simulator is the right tool.",
              "DESIGN.md 5 (C06)"),
